@@ -47,7 +47,10 @@ RULE = (
     "130 000 / 230 000 / 262 145 points (never a multiple of 100 000) in thousands of blocks of very different populations for "
     "sum / mean / median, judged like every other call down to the last points of the input; drop_coords=False with 11..16 coordinate arrays (extra k = 1000*k "
     "+ noise; controls with exactly 10, 3 and 4 arrays); np.average / weighted median with weights exactly 0.0 in all components on points ON "
-    "the bounding box of the cloud, region not given (control: given), every block keeping a positive weight. Non-trivial = at least 2 occupied blocks, a block with >= 2 members whose data differ, and an empty block "
+    "the bounding box of the cloud, region not given (control: given), every block keeping a positive weight; value coincidences for sum / mean / max / min / median with 1..3 components: 0/1 "
+    "flags, signed integer residuals that cancel inside a block, a field that is zero over part of the survey, all-zero data (occupied blocks "
+    "that reduce to exactly 0 in every component) and NaN data incl. blocks without a valid value (entry and coordinates judged, the "
+    "value of an entry with a NaN member is not). Non-trivial = at least 2 occupied blocks, a block with >= 2 members whose data differ, and an empty block "
     "present; distinct = hash of (coordinates, data, weights, configuration)."
 )
 ASSUMPTIONS = [
@@ -99,6 +102,13 @@ FLOORS = {
         "class:zero_weight_point_on_the_bounding_box:region_inferred": 18,
         "class:zero_weight_point_on_the_bounding_box:region_given": 4,
         "zero_weight_border_calls:points_on_the_box_with_weight_0": 100,
+        "class:call_with_an_occupied_block_reducing_to_0_in_every_component:sum": 12,
+        "class:call_with_an_occupied_block_reducing_to_0_in_every_component:mean": 3,
+        "class:call_with_an_occupied_block_reducing_to_0_in_every_component:max": 2,
+        "occupied_blocks_reducing_to_exactly_0_in_every_component": 1000, "value_coincidence_calls:flags": 10,
+        "value_coincidence_calls:residuals": 10, "value_coincidence_calls:partly_zero": 6, "value_coincidence_calls:all_zero": 1,
+        "value_coincidence_calls:nan": 2, "class:data_with_NaN": 2,
+        "either_way:entries_of_blocks_with_a_NaN_member(value not judged)": 35,
     },
     "thorough": {
         "eval:filter_layout": 16800, "eval:labels_vs_reference_geometry": 16800, "eval:params_unchanged_by_filter": 16900,
@@ -141,6 +151,13 @@ FLOORS = {
         "class:zero_weight_point_on_the_bounding_box:region_inferred": 290,
         "class:zero_weight_point_on_the_bounding_box:region_given": 94,
         "zero_weight_border_calls:points_on_the_box_with_weight_0": 1500,
+        "class:call_with_an_occupied_block_reducing_to_0_in_every_component:sum": 220,
+        "class:call_with_an_occupied_block_reducing_to_0_in_every_component:mean": 61,
+        "class:call_with_an_occupied_block_reducing_to_0_in_every_component:max": 49,
+        "occupied_blocks_reducing_to_exactly_0_in_every_component": 17600, "value_coincidence_calls:flags": 150,
+        "value_coincidence_calls:residuals": 150, "value_coincidence_calls:partly_zero": 110,
+        "value_coincidence_calls:all_zero": 53, "value_coincidence_calls:nan": 88, "class:data_with_NaN": 88,
+        "either_way:entries_of_blocks_with_a_NaN_member(value not judged)": 920,
     },
 }
 JOBS = {"quick": 1, "thorough": 16}
@@ -150,8 +167,8 @@ CALLS_PER_CASE = 8
 
 def plan(tier):
     if tier == "quick":
-        return collections.OrderedDict(random=140, edges=32, series=42, tiny=10, refused=3, nested=8, reuse=24, inplace=14, reconfigure=30, spellings=40, many_coordinates=10, zero_weights=8, large=2)
-    return collections.OrderedDict(random=2100, edges=480, series=640, tiny=120, refused=14, nested=100, reuse=360, inplace=210, reconfigure=450, spellings=600, many_coordinates=150, zero_weights=120, large=18)
+        return collections.OrderedDict(random=140, edges=32, series=42, tiny=10, refused=3, nested=8, reuse=24, inplace=14, reconfigure=30, spellings=40, many_coordinates=10, zero_weights=8, value_coincidences=12, large=2)
+    return collections.OrderedDict(random=2100, edges=480, series=640, tiny=120, refused=14, nested=100, reuse=360, inplace=210, reconfigure=450, spellings=600, many_coordinates=150, zero_weights=120, value_coincidences=180, large=18)
 
 
 def value_range(values):
@@ -267,6 +284,14 @@ def install(tap, run):
         run.evaluated("block_value", judged)
         if skipped:
             run.count("either_way:weighted_median_at_half_weight", skipped)
+        if getattr(call, "nan_member_entries", 0):
+            run.count("either_way:entries_of_blocks_with_a_NaN_member(value not judged)", call.nan_member_entries)
+            run.count("class:data_with_NaN")
+        zero_everywhere = np.all([np.asarray(o) == 0 for o in observed], axis=0)
+        if zero_everywhere.any():
+            run.count("class:call_with_an_occupied_block_reducing_to_0_in_every_component")
+            run.count("class:call_with_an_occupied_block_reducing_to_0_in_every_component:" + name)
+            run.count("occupied_blocks_reducing_to_exactly_0_in_every_component", int(zero_everywhere.sum()))
         run.observe_max("block_value_error_over_tolerance", worst)
         if failures:
             f = failures[0]
@@ -292,7 +317,9 @@ def install(tap, run):
                 key="coordinate:%s" % ("centre" if est.center_coordinates and f["coordinate"] < 2 else "reduced"))
 
         # 5. a sum reduction conserves the total
-        if est.reduction is np.sum:
+        if est.reduction is np.sum and any(np.isnan(d).any() for d in call.data):
+            run.count("skipped:sum_conservation_with_NaN_data")
+        elif est.reduction is np.sum:
             run.evaluated("sum_conserved")
             for c in range(call.ncomp):
                 total_in = math.fsum(call.data[c].tolist())
@@ -440,6 +467,57 @@ def _zero_weight_border(run, rng, verde):
     with warnings.catch_warnings():
         warnings.simplefilter("ignore")
         verde.BlockReduce(reduction, **kwargs).filter((east, north), data[0] if ncomp == 1 else tuple(data), weights[0] if ncomp == 1 else tuple(weights))
+
+
+def _value_coincidences(run, rng, verde):
+    """
+    Data for which some OCCUPIED blocks reduce to exactly 0.0 in every component (0/1 flags, signed integer residuals that cancel inside a
+    block, a field that is zero over part of the survey, all-zero data) or contain NaN: occupancy is defined by the points, not by the
+    reduced value - one entry per occupied block, data and coordinates of equal length, each value beside its own block.
+    """
+    east, north = blk.make_points(rng, n=int(rng.integers(8, 70)))
+    kwargs = blk.make_blocks(rng, east, north, want_empty=True)
+    kwargs["center_coordinates"] = bool(rng.random() < 0.4)
+    ncomp = int(rng.choice([1, 2, 3]))
+    kind = str(rng.choice(["flags", "residuals", "partly_zero", "all_zero", "nan"], p=[.28, .28, .2, .09, .15]))
+    reduction = [np.sum, np.sum, np.sum, np.mean, np.max, np.min, np.median][int(rng.integers(0, 7))]
+    geo = blk.Geometry(east, north, kwargs.get("spacing"), kwargs.get("shape"), kwargs.get("adjust", "spacing"), kwargs.get("region"))
+    label = geo.north.locate(north)[0] * geo.east.n + geo.east.locate(east)[0]  # reference blocks (edge points: one of the neighbours)
+    data = []
+    for c in range(ncomp):
+        if kind == "flags":
+            d = (rng.random(east.size) < rng.uniform(0.05, 0.3)).astype(str(rng.choice(["int64", "float64", "bool"])))
+        elif kind == "residuals":
+            k = int(rng.integers(1, 9))
+            d = rng.integers(-9, 10, east.size)
+            for lab in np.unique(label):
+                if rng.random() < 0.6:
+                    members = np.flatnonzero(label == lab)
+                    pattern = np.resize([k, -k], members.size)
+                    if members.size % 2:
+                        pattern[-1] = 0
+                    d[members] = pattern
+            d = d.astype(str(rng.choice(["int64", "float64", "int32"])))
+        elif kind == "partly_zero":
+            mask = east > np.quantile(east, rng.uniform(0.3, 0.7)) if c == 0 else mask  # noqa: F821 - the same part of the survey in every component
+            d = np.where(mask, gen.smooth_field(rng, east, north, amplitude=float(10 ** rng.uniform(-1, 3))), 0.0)
+        elif kind == "all_zero":
+            d = np.zeros(east.size, dtype=str(rng.choice(["float64", "int64"])))
+        else:
+            d = gen.smooth_field(rng, east, north, amplitude=10.0)
+            if c == 0 or rng.random() < 0.5:
+                holes = rng.random(east.size) < rng.uniform(0.05, 0.3)
+                for lab in np.unique(label):  # and whole blocks without a single valid value
+                    if rng.random() < 0.25:
+                        holes |= label == lab
+            d[holes] = np.nan
+        data.append(d)
+    run.count("value_coincidence_calls:" + kind)
+    with warnings.catch_warnings():
+        warnings.simplefilter("ignore")
+        out_coords, out = verde.BlockReduce(reduction, **kwargs).filter((east, north), data[0] if ncomp == 1 else tuple(data))
+    return {"kind": kind, "reduction": reduction.__name__, "kwargs": kwargs, "easting": east, "northing": north, "data": data,
+            "reference_labels": label, "result_coordinates": out_coords, "result_data": out}
 
 
 def _large_call(run, rng, verde, index):
@@ -592,6 +670,11 @@ def run_case(run, tap, stream, index, rng):
 
     if stream == "large":
         _large_call(run, rng, verde, index)
+        return
+    if stream == "value_coincidences":
+        for _ in range(CALLS_PER_CASE):
+            info = _value_coincidences(run, rng, verde)
+        run.sample("occupied_blocks_that_reduce_to_zero", info)
         return
     if stream == "many_coordinates":
         for _ in range(CALLS_PER_CASE):
